@@ -190,6 +190,11 @@ func (f *file) parentsFromDirective() ([]string, error) {
 
 		case nil:
 			noParent = true
+
+		default:
+			// e.g. an unquoted number: not a way to name a parent, and
+			// ignoring it would silently skip the layer it was meant to name
+			return nil, fmt.Errorf("$parent=%#v: %w", val2, ErrInvalidParent)
 		}
 	}
 
